@@ -126,6 +126,7 @@ func c06Cases() []c06Case {
 			"panel.vuego": `<div><template include="badge.vuego"></template><slot>PANEL-FB</slot></div>`, "badge.vuego": `<span><slot>new</slot></span>`}, d, "newhello"},
 	)
 	cases = append(cases, c06PropNames()...)
+	cases = append(cases, c06UnicodeSpaceContent()...)
 	return append(cases, c06Generated()...)
 }
 
